@@ -26,7 +26,7 @@ def main(argv=None):
     pid, tier, seed = a.pid, a.tier, a.seed
     t0 = time.time()
     import shutil
-    shutil.rmtree(os.path.join(ROOT, 'replays', pid), ignore_errors=True)
+    shutil.rmtree(os.path.join(harness.replay_root(), pid), ignore_errors=True)
     cfg = props.PROPS[pid]
     fails, crashes = [], []
     coverage = {}
